@@ -172,8 +172,14 @@ class H:
 
     def _maybe_fault(self, spec, c):
         f = self.fault
-        if f is None and not spec.get("fail_args"):
+        if f is None and not spec.get("fail_args") and not spec.get("fail_if"):
             return
+        fi = spec.get("fail_if")
+        if fi and eval(fi, {}, dict(c.args)):
+            e = InjectedError(c.nid, c.k)
+            e.item = tuple(sorted((k, repr(v)) for k, v in c.args.items()))
+            self.injected.append(e)
+            raise e
         fa = spec.get("fail_args")
         if fa:
             for p, vals in fa.items():
